@@ -642,8 +642,18 @@ class SymEval:
         # havoc loop-carried state
         pre = st.copy()
         st = st.copy()
+        # a loop-carried variable that enters the loop as a tuple display of known length is carried component by component (`cursor = (offset, index)`
+        # threaded through the iterations is `offset`, `index` threaded separately)
+        split = {n: len(pre.env[n][1]) for n in assigned if n in pre.env and pre.env[n][0] == "tuple" and 1 < len(pre.env[n][1]) <= 4 and "." not in n}
+        for n, k in split.items():
+            for i in range(k):
+                pre.env[f"{n}.{i}"] = pre.env[n][1][i]
+        info["split"] = split
         for n in assigned:
             st.env[n] = ("loop", lid, n)
+        for n, k in split.items():
+            st.env[n] = ("tuple", tuple(("loop", lid, f"{n}.{i}") for i in range(k)))
+            info["assigned"] = set(info["assigned"]) | {f"{n}.{i}" for i in range(k)}
         for f in fields:
             st.env["self." + f] = ("loop", lid, "self." + f)
         if calls_self:
@@ -666,6 +676,11 @@ class SymEval:
             body_st = st.copy()
             self.assign(s.target, ("elem", info.get("iter", TOP), lid), body_st, s)
         body_st = self.block(s.body, body_st)
+        for n, k in split.items():
+            for st_ in [body_st] + [x for _, x in self._loop_ends.get(lid, [])] + list(self._tail_ends.get(lid, [])):
+                if n in st_.env:
+                    for i in range(k):
+                        st_.env[f"{n}.{i}"] = self.proj(st_.env[n], i)
         info["body_end"] = body_st.env
         info["body_dead"] = body_st.dead
         info["body_end_dnf"] = body_st.dnf
@@ -678,6 +693,8 @@ class SymEval:
         out = State(dict(st.env), pre.dnf, None)
         for n in assigned:
             out.env[n] = ("loopout", lid, n)
+        for n, k in split.items():
+            out.env[n] = ("tuple", tuple(("loopout", lid, f"{n}.{i}") for i in range(k)))
         for f in fields:
             out.env["self." + f] = ("loopout", lid, "self." + f)
         if calls_self:
@@ -1232,6 +1249,22 @@ class SymEval:
         xs = (a[1] if a[0] == "or" else (a,)) + (b[1] if b[0] == "or" else (b,))
         return ("or", tuple(xs))
 
+    def _star_arity(self, f, given: int, e) -> int | None:
+        """Number of items a trailing *args must supply: the callee's positional parameters not yet covered (package callee without *args / defaults)."""
+        q = None
+        if f[0] == "attr" and f[1] == ("self",) and self.func is not None and self.func.cls:
+            q = f"{self.func.module}.{self.func.cls}.{f[2]}"
+        elif f[0] == "func":
+            q = f[1]
+        fi = self.ce.repo.funcs.get(q) if q else None
+        if fi is None or e.keywords:
+            return None
+        a = fi.node.args
+        if a.vararg or a.kwarg or a.defaults or a.kwonlyargs:
+            return None
+        n = len(fi.params) - (1 if (fi.cls and not fi.is_static) else 0) - given
+        return n if 0 < n <= 4 else None
+
     def _is_functools_reduce(self, fn) -> bool:
         mod = self.ce.repo.modules.get(self.func.module) if self.func is not None else None
         if mod is None:
@@ -1279,6 +1312,21 @@ class SymEval:
                 f = ("attr", recv, f[1])
         args = []
         for a in e.args:
+            if isinstance(a, ast.Starred):
+                v = self.expr(a.value, st)
+                if v[0] in ("tuple", "list"):
+                    args.extend(v[1])  # f(*(x, y)) is f(x, y)
+                    continue
+                if is_const(v) and isinstance(v[1], (tuple, list)):
+                    args.extend(self.lift(x) for x in v[1])
+                    continue
+                # the remaining positional parameters of a known callee, as projections of the starred value
+                k = self._star_arity(f, len(args), e) if a is e.args[-1] else None
+                if k is not None:
+                    args.extend(self.proj(v, i) for i in range(k))
+                    continue
+                args.append(("star", v))
+                continue
             args.append(self.expr(a, st))
         kwargs = []
         for k in e.keywords:
